@@ -266,6 +266,9 @@ func (fx *FuncCtx) callStatic(st *State, x *ssa.Call, callee *ssa.Function) (for
 			nf.vals[fv] = st.val(mc.Bindings[i])
 		}
 	}
+	if nf.ct != nil {
+		nf.entry = st.snapshot()
+	}
 	st.stack = append(st.stack, nf)
 	return nil, false
 }
